@@ -295,10 +295,22 @@ func (sc *collection) doBuild(ctx context.Context) (Provider, error) {
 		}
 	}
 
+	// The provider works on a snapshot of the registry: later changes to the
+	// collection must not affect a provider that has already been built.
+	services := make(map[TypeKey]*Descriptor, len(sc.services))
+	for key, descriptor := range sc.services {
+		services[key] = descriptor
+	}
+
+	groups := make(map[GroupKey][]*Descriptor, len(sc.groups))
+	for key, members := range sc.groups {
+		groups[key] = append([]*Descriptor(nil), members...)
+	}
+
 	p := &provider{
 		id:                          "p" + strconv.FormatUint(atomic.AddUint64(&providerIDCounter, 1), 36),
-		services:                    sc.services,
-		groups:                      sc.groups,
+		services:                    services,
+		groups:                      groups,
 		graph:                       g,
 		analyzer:                    sc.analyzer, // Share analyzer from collection
 		singletonKeys:               make([]instanceKey, 0, len(allDescriptors)),
